@@ -1,13 +1,15 @@
 #!/bin/bash
 # usage: tools_detect_matrix.sh [ids...]  — run each seeded change against the check of its own property (scratch copy of /repo),
 # record the verdict in seeded/<id>/detected.txt
+# SEED_BASE=/verif/seeded_harmless runs the property-preserving changes instead (expected: exit 0, no VIOLATION line)
 cd /verif
-ids=${@:-$(ls seeded)}
+export SEED_BASE=${SEED_BASE:-/verif/seeded}
+ids=${@:-$(ls $SEED_BASE)}
 run() {
   id=$1; prop=${id%%_*}
-  out=$(VERIF_EVIDENCE_DIR=/tmp/pyvc_ev_$id VERIF_REPLAY_DIR=/tmp/pyvc_ev_$id/replay ./audit_one /verif/seeded/$id/patch.diff $prop quick 2>&1 | grep -v conda)
+  out=$(VERIF_EVIDENCE_DIR=/tmp/pyvc_ev_$id VERIF_REPLAY_DIR=/tmp/pyvc_ev_$id/replay ./audit_one $SEED_BASE/$id/patch.diff $prop quick 2>&1 | grep -v conda)
   rc=$(echo "$out" | grep -c "^VIOLATION")
-  echo "$out" | grep -E "^VIOLATION|^$prop:|unknown|error" | head -6 > /verif/seeded/$id/detected.txt
+  echo "$out" | grep -E "^VIOLATION|^$prop:|unknown|error" | head -6 > $SEED_BASE/$id/detected.txt
   echo "$id violations=$rc $(echo "$out" | grep "^$prop:" | tail -1)"
   rm -rf /tmp/pyvc_ev_$id
 }
